@@ -12,7 +12,7 @@ PROPS = {
 }
 DEVIATIONS = {  # cfg suffix -> invariant TLC must report
     "IgnoreReply": "C32_Acked", "IgnoreReplyMulti": "C32_Acked", "SubsetParts": "C32_Stored",
-    "HashBeforeStore": "C32_Stored", "IgnoreCompleteErr": "C32_Stored", "NegativeAck": "C32_Acked", "EmptyAck": "C32_Acked",
+    "HashBeforeStore": "C32_Stored", "IgnoreCompleteErr": "C32_Stored", "NegativeAck": "C32_Acked", "EmptyAck": "C32_Acked", "DupParts": "C32_Stored",
 }
 NO_ACK = 1000  # harness/model value for 'the broker gave no code for the partition'
 UNIT = 1 << 20  # one model size unit = 1 MiB (part size / minimum part size = 5 units)
@@ -70,7 +70,8 @@ def sig_of(inv, run, ev):
             if ev["ev"] == "Complete":
                 before = [r for r in run[:run.index(ev)] if r["ev"] != "Reset" and r["st"]["phase"] == "open"]
                 nup = len(before[-1]["st"]["parts"]) if before else 0
-                cls = "subset_of_parts_listed" if len(ev.get("listed", [])) < nup else "size_differs"
+                ls = ev.get("listed", [])
+                cls = "subset_of_parts_listed" if len(ls) < nup else "repeated_part_listed" if len(set(ls)) < len(ls) else "size_differs"
         else:
             retried = any(r["ev"] == "Part" and r["status"] >= 500 for r in run)
             cls = "digest_differs_after_failed_part" if retried else "digest_differs"
@@ -93,20 +94,21 @@ def check(ctx, prop):
             raise Broken("deviation %s no longer violates %s in the model (vacuous deviation)" % (dev, inv))
         scheds.append({"unit": UNIT, "seed": ctx.seed, "steps": h}); labels.append("dev:" + dev)
     ndev = len(scheds)
-    if quick:
-        fin = [h for h in cover if h[-1]["a"] in ("Complete", "Single")]
-        oth = [h for h in cover if h[-1]["a"] not in ("Complete", "Single")]
-        # stratified by (request kind, broker reply) so that every reply of the alphabet is replayed on both upload paths
-        groups = {}
-        for h in fin:
-            groups.setdefault((h[-1]["a"], h[-1]["reply"]), []).append(h)
-        pick = []
-        for k in sorted(groups):
-            want = 24 if k[1] == "ok" else 10   # "ok" also labels the requests that never reach the produce
-            pick += rnd.sample(groups[k], min(want, len(groups[k])))
-        pick += rnd.sample(oth, min(30, len(oth)))
-    else:
-        pick = cover
+    # state cover, stratified by (request kind, broker reply, shape of the completion list) so that every reply of the
+    # alphabet and every list shape is replayed on both upload paths; "ok" also labels requests that never reach the produce
+    fin = [h for h in cover if h[-1]["a"] in ("Complete", "Single")]
+    oth = [h for h in cover if h[-1]["a"] not in ("Complete", "Single")]
+    groups = {}
+    for h in fin:
+        groups.setdefault((h[-1]["a"], h[-1]["reply"], h[-1].get("cls", "")), []).append(h)
+    pick = []
+    for k in sorted(groups):
+        if quick:
+            want = (24 if k[2] in ("", "exact") else 8) if k[1] == "ok" else 10
+        else:
+            want = 400 if k[2] in ("", "exact") else 150
+        pick += rnd.sample(groups[k], min(want, len(groups[k])))
+    pick += rnd.sample(oth, min(30 if quick else 800, len(oth)))
     for h in pick:
         scheds.append({"unit": UNIT, "seed": ctx.seed, "steps": h}); labels.append("cover")
     hs, _ = T.simulate_hists(ctx, d, "MC_LfsUpload.tla", "Sim_LfsUpload.cfg", num=(60 if quick else 400), depth=9, seed=ctx.seed)
@@ -158,7 +160,7 @@ def check(ctx, prop):
         "model_config": "MC_LfsUpload_%s.cfg" % ctx.tier,
         "traces_validated_against_impl": len(runs), "trace_events": len(rows),
         "evaluations": len(scheds), "distinct_nontrivial": sum(1 for s in scheds if nontrivial(s)),
-        "rule": "schedules = TLC counterexamples of the named deviations + one history per reachable model state (maximal ones; seeded sample in the quick tier) + TLC -simulate behaviours; non-trivial = ends in a request that reports an upload outcome and has an injected S3 failure, a non-ok broker reply, or a completion after >=2 part requests",
+        "rule": "schedules = TLC counterexamples of the named deviations + one history per reachable model state (maximal ones; seeded sample stratified by request kind x broker reply x completion-list shape) + TLC -simulate behaviours; non-trivial = ends in a request that reports an upload outcome and has an injected S3 failure, a non-ok broker reply, or a completion after >=2 part requests",
         "final_requests": len(finals), "successful_uploads_observed": len(ok200), "broker_replies_observed": acks,
         "deviation_schedules": sorted(DEVIATIONS), "conformance": ("drift" if drift else "accepted"), "conformance_detail": conf,
         "binding_self_test": st,
